@@ -110,6 +110,17 @@ CLAIMED["C18"] = dict(
          "and sound UF abstractions of products, quotients, powers and Euclidean norms. Trusted base: JAX tracing, jxs "
          "interpreter, z3.")
 
+CLAIMED["C14"] = dict(
+    text="Bounded symbolic model checking: one step of the isotropic and block-diagonal models (d=2) from states that "
+         "correspond to a shared symbolic factor is shown equal to ONE common reference, the dense textbook EKF step on "
+         "the dense embedding (the dense model itself is tied to that reference under C02): TS0 with an arbitrary coupled, "
+         "non-autonomous polynomial field in the uncalibrated and MLE modes (means; covariances where theory says so; the "
+         "block-diagonal MLE scale as per-dimension split), with damping, reported standard deviations included; TS1 with a "
+         "componentwise-decoupled field (block-diagonal = independent scalar dense solves, no cross-correlation) and with a "
+         "Jacobian that is a multiple of the identity (isotropic = dense). z3 QF_LRA on linearised obligations.",
+    technique="jaxpr symbolic execution + polynomial hypotheses + z3 QF_LRA (XL certificates) against a common dense reference; float64 replay",
+    design="§4 C14")
+
 DIRECT_NOTE = ("Assumes real arithmetic and polynomial inputs with symbolic coefficients up to the stated degree/size. "
                "Trusted base: CPython+JAX tracing (jet/jvp/vmap are JAX's own), the jxs interpreter and polynomial "
                "arithmetic (re-validated every run against the real JAX runtime), z3.")
